@@ -37,7 +37,7 @@ RULE = (
     "numpoly.loadtxt == numpy.loadtxt for path and file object. non-trivial = ndim != 1, or a single term, or >= 2 "
     "terms with >= 2 elements."
 )
-LEVEL_TEXT += (" Text round trips include exponents whose storage-key characters are Unicode white space or line separators (74, 101, 8133, 8173, 12229 ...) and files compressed by name (.gz, .bz2).")
+LEVEL_TEXT += (" Text round trips include exponents whose storage-key characters are Unicode white space or line separators (74, 101, 8133, 8173, 12229 ...) and files compressed by name (.gz, .bz2, .xz, .lzma), byte streams, lists / generators of lines, pipes, encodings; comment markers with or without blanks around them; the reader-side unpack= (transposed result) and usecols= (terms in another order).")
 ASSUMPTIONS = [
     "text files restore values as float64 (loadtxt's default dtype); the coefficient dtype of a text round-trip is not asserted",
     "size-0 arrays are excluded (known finding, see C12)",
@@ -87,7 +87,10 @@ def case_st(draw):
             "delimiter": draw(st.sampled_from([" ", " ", ",", ";", "\t"])),
             "header": draw(st.sampled_from(["", "", "my header", "two\nlines", "numpoly: not really"])),
             "footer": draw(st.sampled_from(["", "", "the end"])),
-            "comments": draw(st.sampled_from(["# ", "# ", "% ", "//"])),
+            "comments": draw(st.sampled_from(["# ", "# ", "% ", "//", "#", " # ", "\t# "])),
+            # reader-side arguments of numpy.loadtxt that rearrange what is read: the transposed result, and the
+            # columns (one per term) taken in another order
+            "load": draw(st.sampled_from([None, None, None, None, "unpack", "usecols"])),
             "writer": draw(st.sampled_from(["numpoly", "numpoly", "numpy"])),
             "target": draw(st.sampled_from(["str", "path", "stringio", "file", "str", "path", "gz", "bz2", "xz", "lzma", "bytesio", "binary-file", "lines", "generator", "pipe"])),
             "encoding": draw(st.sampled_from([None, None, None, "utf-8", "utf-16", "latin1"])),
@@ -233,6 +236,16 @@ def check_case(case, ctx):
     lkw = {"comments": case["comments"]}
     if case["delimiter"] != " ":
         lkw["delimiter"] = case["delimiter"]
+    if case.get("load") == "unpack":
+        lkw["unpack"] = True
+        pm = pm.T  # (numpy: "the returned array is transposed")
+        want_shape = tuple(p.shape)[::-1]
+    else:
+        want_shape = tuple(p.shape)
+    if case.get("load") == "usecols":
+        n = len(p.keys)
+        k = 1 + sum(case["poly"]["shape"]) % max(n - 1, 1)
+        lkw["usecols"] = [(i + k) % n for i in range(n)]  # every column, rotated
     writer = numpoly.savetxt if case["writer"] == "numpoly" else numpy.savetxt
     cls = []
     if p.ndim == 0:
@@ -320,8 +333,10 @@ def check_case(case, ctx):
     if not isinstance(q, numpoly.ndpoly):
         return fail("type:" + cls, "loadtxt returned %r for a file with the numpoly header (comments=%r)"
                     % (type(q), case["comments"]))
-    if tuple(q.shape) != tuple(p.shape):
-        return fail("shape:" + cls, "shape %s restored as %s" % (p.shape, q.shape))
+    if case.get("load"):
+        cls += "," + case["load"]
+    if tuple(q.shape) != want_shape:
+        return fail("shape:" + cls, "shape %s restored as %s (%s)" % (p.shape, q.shape, lkw))
     if tuple(q.names) != tuple(p.names):
         return fail("names:" + cls, "names %s restored as %s" % (p.names, q.names))
     try:
